@@ -344,7 +344,7 @@ func ruleR19_7(w *World, r *Report) {
 			for f := range fields {
 				n++
 				key := fmt.Sprintf("%s option %s reaches the started solver", w.FuncName(fn), f)
-				var bad []string
+				var bad, late []string
 				for _, o := range origins {
 					oi, _ := o.(ssa.Instruction)
 					okO := false
@@ -353,6 +353,11 @@ func ruleR19_7(w *World, r *Report) {
 							continue
 						}
 						if oi != nil && oi.Block() != nil && !instrReachableFrom(oi, s.st) && oi != ssa.Instruction(s.st) {
+							continue
+						}
+						// the option must be in place when the solver starts: a store after the `go` races with the search
+						if !instrDominates(s.st, g) && instrReachableFrom(g, s.st) {
+							late = append(late, "the option "+f+" is stored at "+w.InstrPos(s.st)+", after the solver was started: the search may or may not see it")
 							continue
 						}
 						// the store may be conditional (if verbose { s.Verbose = true }); what matters is that it exists for this origin
@@ -366,6 +371,7 @@ func ruleR19_7(w *World, r *Report) {
 						bad = append(bad, "the solver created at "+pos+" can be the one that runs but never receives "+f)
 					}
 				}
+				bad = append(bad, late...)
 				if len(bad) > 0 {
 					r.Bad("R19.7", key, w.InstrPos(g), strings.Join(dedupe(bad), "; ")+": the corresponding command-line flag is silently ignored on that path (e.g. no certificate although -certified was given)")
 				} else {
